@@ -75,3 +75,68 @@ func sharedSlow(site int32, addr uintptr, mode int) {
 		s.recordAccess(t, addr, site, false)
 	}
 }
+
+// P records a method call on the shared object *p for the happens-before race detector.
+// It is NOT a scheduling point: races are judged on the happens-before relation, not on
+// the interleaving that happened to be executed. write=false means a read-only method.
+func P[T any](site int32, p *T, write bool) *T {
+	if sharedOn {
+		pSlow(site, uintptr(unsafe.Pointer(p)), write)
+	}
+	return p
+}
+
+func pSlow(site int32, addr uintptr, write bool) {
+	s := cur
+	if s == nil || !s.cfg.HB || s.tearing || addr == 0 {
+		return
+	}
+	if s.sharedOn != nil && int(site) < len(s.sharedOn) && !s.sharedOn[site] {
+		return
+	}
+	t := s.caller()
+	if t == nil {
+		return
+	}
+	clk := t.vc[t.ID]
+	if t.lastP.addr == addr && t.lastP.clk == clk && (t.lastP.write || !write) {
+		return
+	}
+	t.lastP.addr, t.lastP.clk, t.lastP.write = addr, clk, write
+	SiteHits[site]++
+	s.recordAccess(t, addr, site, write)
+}
+
+// SyncObj marks an operation on a synchronising library object (sync.Pool, sync.Map):
+// modelled as an acquire+release on the object, which over-approximates happens-before
+// (it can hide a race, never invent one).
+func SyncObj[T any](site int32, p *T) *T {
+	if sharedOn {
+		if s := cur; s != nil && s.cfg.HB && !s.tearing {
+			if t := s.caller(); t != nil {
+				k := uintptr(unsafe.Pointer(p))
+				s.hbAcquire(t, s.mtxVC, k)
+				s.hbRelease(t, s.mtxVC, k)
+			}
+		}
+	}
+	return p
+}
+
+// HBRelease / HBAcquire let harness stubs (e.g. the simulated connection) contribute
+// the happens-before edges their real counterparts provide.
+func HBRelease(key uintptr) {
+	if s := cur; s != nil && s.cfg.HB && !s.tearing {
+		if t := s.caller(); t != nil {
+			s.hbRelease(t, s.mtxVC, key)
+		}
+	}
+}
+
+func HBAcquire(key uintptr) {
+	if s := cur; s != nil && s.cfg.HB && !s.tearing {
+		if t := s.caller(); t != nil {
+			s.hbAcquire(t, s.mtxVC, key)
+		}
+	}
+}
